@@ -26,6 +26,7 @@ type vAppEnv struct {
 	failConfig bool
 	failPrep   bool
 	failRefr   bool
+	causeless  bool
 }
 
 type vFactory struct {
@@ -68,9 +69,18 @@ type vRun struct {
 	env  *vAppEnv
 }
 
+// an error value with an optional underlying cause that is absent
+type vCauseless struct{}
+
+func (e *vCauseless) Error() string { return "failed" }
+func (e *vCauseless) Cause() error  { return nil }
+
 func (r *vRun) Run() error {
 	r.env.log = append(r.env.log, r.id)
 	if r.fail {
+		if r.env.causeless {
+			return &vCauseless{}
+		}
 		return errV
 	}
 	return nil
@@ -86,6 +96,11 @@ type vRunOrd struct{ vRun }
 func (r *vRunOrd) Order() int { return r.o }
 
 type vRunPlain struct{ vRun }
+
+// a runner that carries the Priority marker but no Order(): it is not ordered at all
+type vRunMarker struct{ vRun }
+
+func (r *vRunMarker) Priority() {}
 
 // C13 (+ the run() part of C09, + the runner call site of C12)
 func VerifC13() {
@@ -103,12 +118,23 @@ func VerifC13() {
 		}
 	}
 	failing := nd.Choose(n + 1) // index of the failing runner, n = none
+	if failing < n {
+		env.causeless = nd.Bool() // the failing runner reports an error value whose Cause() is nil
+	}
 	class := make([]int, n)
 	order := make([]int, n)
 	var runners []definition.ApplicationRunner
 	for i := 0; i < n; i++ {
-		class[i] = nd.Choose(3)
+		class[i] = nd.Choose(4)
 		base := vRun{id: i, fail: i == failing, env: env}
+		if class[i] == 3 {
+			// marker only: belongs to the unordered group
+			class[i] = 2
+			runners = append(runners, &vRunMarker{base})
+			order[i] = 0
+			nd.Cover("runner with a Priority marker but no Order")
+			continue
+		}
 		switch class[i] {
 		case 0:
 			base.o = int(nd.Int64())
@@ -403,4 +429,51 @@ func VerifC14Many() {
 		nd.Assert(c.calls == 1, "C14: every closer is invoked exactly once by the time Close returns")
 	}
 	nd.Cover("many closers")
+}
+
+// C14: a closer that is slow because it waits for a peer never prevents the peer from being invoked.
+// Each closer announces that it was invoked and then waits until its peer was invoked too; closers may
+// also carry an Order().
+type vPeerCloser struct {
+	started chan struct{}
+	peer    *vPeerCloser
+	calls   int
+	done    bool
+}
+
+func (c *vPeerCloser) Close() error {
+	c.calls++
+	close(c.started)
+	<-c.peer.started
+	c.done = true
+	return nil
+}
+
+type vPeerCloserOrd struct {
+	vPeerCloser
+	o int
+}
+
+func (c *vPeerCloserOrd) Order() int { return c.o }
+
+func VerifC14Peers() {
+	a := &vPeerCloser{started: make(chan struct{})}
+	b := &vPeerCloser{started: make(chan struct{})}
+	s := &App{}
+	var ca, cb definition.CloserComponent = a, b
+	if nd.Bool() {
+		oa := &vPeerCloserOrd{vPeerCloser: vPeerCloser{started: make(chan struct{})}, o: int(nd.Int64())}
+		a, ca = &oa.vPeerCloser, oa
+		nd.Cover("ordered closer waiting for a peer")
+	}
+	if nd.Bool() {
+		ob := &vPeerCloserOrd{vPeerCloser: vPeerCloser{started: make(chan struct{})}, o: int(nd.Int64())}
+		b, cb = &ob.vPeerCloser, ob
+	}
+	a.peer, b.peer = b, a
+	s.CloserComponents = []definition.CloserComponent{ca, cb}
+	s.Close()
+	nd.Assert(a.done && b.done, "C14: Close returns only after every closer's Close has returned")
+	nd.Assert(a.calls == 1 && b.calls == 1, "C14: every closer is invoked exactly once by the time Close returns")
+	nd.Cover("closers waiting for each other")
 }
